@@ -10,7 +10,7 @@ CHECKS = {
          'trace validation of compiled code against the TLA+ backtracking semantics (TLC)', '5/C02, 2.4'),
  'C03': ('NoRealHalt (Sphinx.tla) evaluated by TLC in every machine state, speculative or committed, of every run of a corpus covering all flavours, control constructs and histories; checked and fault-free unchecked builds',
          'state invariant on the TLA+ machine spec executing real compiler output (TLC)', '5/C03, 2.2'),
- 'C04': ('SphinxRT.tla monitors (FrameInGap, ElemInExtent, Unclassified, AbiWordsSafe, ApFpOrdered, NoFault) in every state; stack-size sweep differential; Tracker.tla replay into the real Tracker',
+ 'C04': ('SphinxRT.tla monitors (FrameInGap, GuardCovers, ElemInExtent, Unclassified, AbiWordsSafe, ApFpOrdered, NoFault) in every state; stack-size sweep differential; Tracker.tla replay into the real Tracker',
          'provenance monitors over TLA+ machine behaviours (TLC) + model replay', '5/C04, 2.3'),
  'C05': (RT + 'fault-injection sites x positions x element types x storage classes x boundary operand values',
          'trace validation against the TLA+ fault semantics (TLC)', '5/C05'),
